@@ -138,6 +138,12 @@ pub enum Instruction {
 
     Label(CaseInsensitiveString),
 
+    /// Follows a label of the program. Cuts the register stack and the value
+    /// stack back to the nesting depth of the label (the number of enclosing
+    /// `FOR` bodies and the number of enclosing `SELECT CASE` blocks), in case
+    /// the label was reached by a `GOTO` out of a deeper block.
+    TrimStacks(usize, usize),
+
     Jump(AddressOrLabel),
 
     JumpIfFalse(AddressOrLabel),
@@ -267,6 +273,10 @@ pub struct InstructionGenerator {
     pub subprogram_info_repository: SubprogramInfoRepository,
     pub current_subprogram: ScopeName,
     pub linter_names: Names,
+    /// The number of `FOR` bodies around the statement being generated
+    pub for_depth: usize,
+    /// The number of `SELECT CASE` blocks around the statement being generated
+    pub select_depth: usize,
 }
 
 impl InstructionGenerator {
@@ -277,6 +287,8 @@ impl InstructionGenerator {
             subprogram_info_repository,
             current_subprogram: ScopeName::Global,
             linter_names,
+            for_depth: 0,
+            select_depth: 0,
         }
     }
 
